@@ -282,7 +282,7 @@ parties did meanwhile: the revision of that content exists, is faithful, and has
 strictly highest number among the revisions of that Composition (who controls it is up to
 the environment: a backup tool may strip the owner reference again at any moment) -/
 def Good' (H : Naming) (c : Comp) (s : Store) : Prop :=
-  ∃ r ∈ s.revs, r.comp = c.name ∧ r.hash = H.hash c.content ∧ r.spec = c.content.spec ∧
+  ∃ r ∈ s.revs, r.comp = c.name ∧ r.hash = H.hash c.content ∧ r.spec = toRevisionSpec c.content.spec ∧
     r.labels = c.content.labels ∧ ∀ x ∈ s.revs, x.comp = c.name → x.name ≠ r.name → x.num < r.num
 
 theorem goodH'_good' (hi : H.Inj D) {s : Store} (w : WF H D s) {c : Comp}
